@@ -25,12 +25,19 @@
 
   Sections: 1 lists / `toList`; 2 `push` (sequence model + aliasing + frame + errors); 3 `deepCopy`;
   4 `append`; 5 iterators, `car`/`cdr`; 6 symbol API = stack machine; 7 conversions; 8 `equal`;
-  9 non-vacuity on a concrete heap with two handles sharing a tail.
+  9 non-vacuity on a concrete heap with two handles sharing a tail;
+  10 the list helpers of `src/lists.rs`: `length`, `nthcdr`, `nth`, `last`, `assoc`, `alist_get`
+  (a key present with a nil value yields that value, NOT the default), `alist_from`, `plist_from`
+  (lemmas in Proofs/C20Lists.lean), with their own non-vacuity examples on the alist `((a . 1) (b) 5 (b . 7))`.
+
+  * `IsListObj o`         : `o` is nil or a cons cell (what `assoc` accepts as an alist).
+  * `assocPred h key`     : the test `assoc` applies to an element: a cons cell whose car is `equal` to `key`.
 -/
 import Tulisp.Proofs.C20
 import Tulisp.Proofs.C20Copy
 import Tulisp.Proofs.C20Sym
 import Tulisp.Proofs.C20Equal
+import Tulisp.Proofs.C20Lists
 namespace Tulisp.C20
 open Tulisp Tulisp.Api Tulisp.Api.State
 
@@ -628,5 +635,412 @@ example : exHeap.push 0 1 = .error .typeMismatch ∧ exHeap.append 0 1 = .error 
 example : (runStack (fun _ => []) [.push "x" 1, .set "x" 2, .get "x", .pop "x", .pop "x", .boundp "x"]).2 =
     [.done, .done, .val (some 2), .done, .err .uninitialized, .bool false] := by
   simp [runStack, stepStack, isKeyword, Stacks.upd]
+
+/-! ## 10. the alist / plist / list helpers (`src/lists.rs`) -/
+
+/-! ### `length` -/
+
+/-- `length` counts the elements of the chain; a dotted tail is not counted. -/
+theorem length_spec {h : Heap} {r : Nat} {xs : List Nat} {tl : Nat} (l : ListAt h r xs tl) :
+    h.length r = xs.length :=
+  length_eq l
+
+theorem length_abs {h : Heap} {r : Nat} {xs : List Nat} (a : Abs h r xs) : h.length r = xs.length := by
+  obtain ⟨_, l, _⟩ := a; exact length_eq l
+
+/-! ### `nthcdr` -/
+
+theorem nthcdr_zero (h : Heap) (r : Nat) : h.nthcdr 0 r = .ok r := nthcdr_zero' h r
+
+/-- **nthcdr ↦ drop**: within the chain, `n` steps reach the cell whose chain is `xs.drop n` (for
+    `n = xs.length` that is the tail cell); at or past the end of a proper list the answer is the
+    terminating nil cell; past the end of a dotted list (tail another atom) it is a type error. -/
+theorem nthcdr_spec {h : Heap} {r : Nat} {xs : List Nat} {tl : Nat} (l : ListAt h r xs tl) (n : Nat) :
+    (n ≤ xs.length → ∃ r', h.nthcdr n r = .ok r' ∧ ListAt h r' (xs.drop n) tl) ∧
+    (xs.length ≤ n → h.get tl = .nil → h.nthcdr n r = .ok tl) ∧
+    (xs.length < n → h.get tl ≠ .nil → h.nthcdr n r = .error .typeMismatch) :=
+  ⟨nthcdr_in_range l n, fun hn hnil => nthcdr_past_proper l hnil n hn,
+   fun hn hnn => nthcdr_past_dotted l hnn n hn⟩
+
+/-- the cell reached is the `n`-th cell of the spine (followed by the tail cell) -/
+theorem nthcdr_spine {h : Heap} {r : Nat} {cs xs : List Nat} {tl : Nat} (c : Chain h r cs xs tl)
+    (n : Nat) (hn : n ≤ xs.length) : ∃ r', (cs ++ [tl])[n]? = some r' ∧ h.nthcdr n r = .ok r' :=
+  ⟨_, nthcdr_chain c n hn⟩
+
+/-- on the abstraction: `nthcdr n` of a proper list denotes `xs.drop n`, for EVERY `n` -/
+theorem nthcdr_abs {h : Heap} {r : Nat} {xs : List Nat} (a : Abs h r xs) (n : Nat) :
+    ∃ r', h.nthcdr n r = .ok r' ∧ Abs h r' (xs.drop n) := by
+  obtain ⟨tl, l, hnil⟩ := a
+  rcases Nat.le_total n xs.length with hn | hn
+  · obtain ⟨r', e, l'⟩ := nthcdr_in_range l n hn
+    exact ⟨r', e, tl, l', hnil⟩
+  · refine ⟨tl, nthcdr_past_proper l hnil n hn, tl, ?_, hnil⟩
+    rw [List.drop_eq_nil_of_le hn]; exact .done (notCons_of_eq_nil hnil)
+
+/-- composition, on every heap and every reference: `m + n` steps are `m` steps, then `n` steps -/
+theorem nthcdr_add (h : Heap) (m n r : Nat) :
+    h.nthcdr (m + n) r = (h.nthcdr m r >>= fun r' => h.nthcdr n r') := by
+  rw [nthcdr_add']
+  cases h.nthcdr m r <;> rfl
+
+/-! ### `nth` -/
+
+/-- the law `(nth n l) = (car (nthcdr n l))`; a negative `n` counts as 0 (`Int.toNat`) -/
+theorem nth_eq_car_nthcdr (h : Heap) (n : Int) (r : Nat) :
+    h.nth n r = (h.nthcdr n.toNat r >>= fun x => h.car x) :=
+  nth_def' h n r
+
+/-- **nth ↦ xs[n]**: in range the `n`-th element, heap unchanged; at or past the end of a proper list a
+    fresh nil cell (the only change to the heap); at or past the end of a dotted list a type error. -/
+theorem nth_spec {h : Heap} {r : Nat} {xs : List Nat} {tl : Nat} (l : ListAt h r xs tl) (n : Int) :
+    (∀ hn : n.toNat < xs.length, h.nth n r = .ok (xs[n.toNat], h)) ∧
+    (xs.length ≤ n.toNat → h.get tl = .nil →
+      h.nth n r = .ok (h.cells.size, (h.alloc .nil).2) ∧
+      (h.alloc .nil).2.get h.cells.size = .nil ∧ Ext h (h.alloc .nil).2) ∧
+    (xs.length ≤ n.toNat → h.get tl ≠ .nil → h.nth n r = .error .typeMismatch) :=
+  ⟨nth_in_range' l n,
+   fun hn hnil => ⟨nth_past_proper' l hnil n hn, alloc_get_new h _, ext_alloc h _⟩,
+   fun hn hnn => nth_past_dotted' l hnn n hn⟩
+
+/-- with a natural-number index -/
+theorem nth_nat {h : Heap} {r : Nat} {xs : List Nat} {tl : Nat} (l : ListAt h r xs tl) (i : Nat)
+    (hi : i < xs.length) : h.nth (i : Int) r = .ok (xs[i], h) := by
+  have := nth_in_range' l (i : Int) (by simpa using hi)
+  simpa using this
+
+/-- a negative index behaves like 0 -/
+theorem nth_neg (h : Heap) {n : Int} (hn : n ≤ 0) (r : Nat) : h.nth n r = h.nth 0 r := by
+  unfold Heap.nth
+  rw [Int.toNat_of_nonpos hn]; rfl
+
+/-! ### `last` -/
+
+/-- **last** on a non-empty chain (proper or dotted: only the cons cells count):
+    without `n`, the LAST CONS CELL (its chain is `[xs.getLast]`); with `some k`: `k < 0` is out of
+    range, `k < length` gives the chain of the last `k` elements, otherwise the list itself. -/
+theorem last_spec {h : Heap} {r : Nat} {xs : List Nat} {tl : Nat} (l : ListAt h r xs tl) (hne : xs ≠ []) :
+    (∃ r', h.last r none = .ok r' ∧ ListAt h r' [xs.getLast hne] tl) ∧
+    (∀ k : Int, k < 0 → h.last r (some k) = .error .outOfRange) ∧
+    (∀ k : Int, 0 ≤ k → k < (xs.length : Int) →
+      ∃ r', h.last r (some k) = .ok r' ∧ ListAt h r' (xs.drop (xs.length - k.toNat)) tl) ∧
+    (∀ k : Int, (xs.length : Int) ≤ k → h.last r (some k) = .ok r) := by
+  refine ⟨?_, ?_, ?_, ?_⟩
+  · obtain ⟨r', e, l'⟩ := nthcdr_in_range l (xs.length - 1) (Nat.sub_le _ _)
+    rw [drop_length_pred hne] at l'
+    exact ⟨r', by rw [last_of_cons l hne]; exact e, l'⟩
+  · intro k hk
+    rw [last_of_cons l hne]; simp only [hk, if_true]
+  · intro k h0 hk
+    obtain ⟨r', e, l'⟩ := nthcdr_in_range l (xs.length - k.toNat) (Nat.sub_le _ _)
+    refine ⟨r', ?_, l'⟩
+    rw [last_of_cons l hne]; simp only [Int.not_lt.mpr h0, hk, if_true, if_false]; exact e
+  · intro k hk
+    have h0 : ¬ k < 0 := by omega
+    have h1 : ¬ k < (xs.length : Int) := by omega
+    rw [last_of_cons l hne]; simp only [h0, h1, if_false]
+
+/-- `last` of nil is that nil; of another atom a type error -/
+theorem last_nil {h : Heap} {r : Nat} (hg : h.get r = .nil) (n : Option Int) : h.last r n = .ok r :=
+  last_of_nil hg n
+
+theorem last_atom {h : Heap} {r : Nat} (hn : NotCons (h.get r)) (hnn : h.get r ≠ .nil) (n : Option Int) :
+    h.last r n = .error .typeMismatch :=
+  last_of_atom hn hnn n
+
+/-! ### `assoc` -/
+
+/-- **assoc ↦ find?**: on a list object whose chain is `xs`, `assoc` returns the FIRST element of `xs` that
+    is a cons cell whose car is `equal` to the key (`assocPred`, the very test of the model), heap
+    unchanged; a fresh nil cell when there is none. -/
+theorem assoc_spec {h : Heap} {r : Nat} {xs : List Nat} {tl : Nat} (l : ListAt h r xs tl)
+    (hl : IsListObj (h.get r)) (key : Nat) :
+    h.assoc key r =
+      (match xs.find? (assocPred h key) with
+       | some item => .ok (item, h)
+       | none => .ok (h.cells.size, (h.alloc .nil).2)) :=
+  assoc_eq l hl key
+
+/-- `assocPred` is: a cons cell whose car is `equal` (fuel `cells.size + 2`) to the key -/
+theorem assocPred_spec {h : Heap} {key item : Nat} :
+    assocPred h key item = true ↔
+      ∃ a d, h.get item = .cons a d ∧ h.equal (h.cells.size + 2) a key = true :=
+  assocPred_iff
+
+/-- the first matching pair wins: everything before it fails the test -/
+theorem assoc_first {h : Heap} {r : Nat} {pre post : List Nat} {p tl : Nat}
+    (l : ListAt h r (pre ++ p :: post) tl) (key : Nat)
+    (hpre : ∀ q ∈ pre, assocPred h key q = false) (hp : assocPred h key p = true) :
+    h.assoc key r = .ok (p, h) := by
+  have hl : IsListObj (h.get r) := by
+    cases pre <;> cases l with
+    | step hg _ => exact .inr ⟨_, _, hg⟩
+  rw [assoc_eq l hl key]
+  have : (pre ++ p :: post).find? (assocPred h key) = some p := by
+    rw [List.find?_eq_some_iff_append]
+    exact ⟨hp, pre, post, rfl, fun a ha => by simp [hpre a ha]⟩
+  rw [this]
+
+/-- conversely: what `assoc` answers is either a matching pair of the list with no match before it and
+    the heap unchanged, or (no element matches) a fresh nil cell -/
+theorem assoc_result {h : Heap} {r : Nat} {xs : List Nat} {tl : Nat} (l : ListAt h r xs tl)
+    (hl : IsListObj (h.get r)) (key : Nat) :
+    (∃ p pre post, h.assoc key r = .ok (p, h) ∧ xs = pre ++ p :: post ∧
+        (∀ q ∈ pre, assocPred h key q = false) ∧ assocPred h key p = true) ∨
+    (h.assoc key r = .ok (h.cells.size, (h.alloc .nil).2) ∧ ∀ q ∈ xs, assocPred h key q = false) := by
+  rw [assoc_eq l hl key]
+  cases hf : xs.find? (assocPred h key) with
+  | some p =>
+    obtain ⟨hp, pre, post, e, hpre⟩ := List.find?_eq_some_iff_append.mp hf
+    exact .inl ⟨p, pre, post, rfl, e, fun q hq => by simpa using hpre q hq, hp⟩
+  | none =>
+    exact .inr ⟨rfl, fun q hq => by simpa using (List.find?_eq_none.mp hf) q hq⟩
+
+/-- no pair matches: a fresh nil cell -/
+theorem assoc_none {h : Heap} {r : Nat} {xs : List Nat} {tl : Nat} (l : ListAt h r xs tl)
+    (hl : IsListObj (h.get r)) (key : Nat) (hno : ∀ q ∈ xs, assocPred h key q = false) :
+    h.assoc key r = .ok (h.cells.size, (h.alloc .nil).2) ∧ (h.alloc .nil).2.get h.cells.size = .nil := by
+  rw [assoc_eq l hl key]
+  have : xs.find? (assocPred h key) = none := List.find?_eq_none.mpr (fun q hq => by simp [hno q hq])
+  rw [this]
+  exact ⟨rfl, alloc_get_new h _⟩
+
+/-- elements that are not cons cells are skipped: `assoc` answers as on the list of the pairs only -/
+theorem assoc_skips_non_pairs {h : Heap} {r : Nat} {xs : List Nat} {tl : Nat} (l : ListAt h r xs tl)
+    (hl : IsListObj (h.get r)) (key : Nat) :
+    h.assoc key r =
+      (match (xs.filter (fun x => h.isCons x)).find? (assocPred h key) with
+       | some item => .ok (item, h)
+       | none => .ok (h.cells.size, (h.alloc .nil).2)) := by
+  rw [assoc_eq l hl key, find_assocPred_filter]; rfl
+
+/-- an alist argument that is not a list is rejected -/
+theorem assoc_not_list {h : Heap} {r : Nat} (hn : NotCons (h.get r)) (hnn : h.get r ≠ .nil) (key : Nat) :
+    h.assoc key r = .error .typeMismatch :=
+  assoc_of_atom hn hnn key
+
+/-! ### `alist_get` -/
+
+/-- **alist_get**: when `assoc` finds the pair `p = (a . d)` the answer is `d` — whatever `d` holds and
+    whatever the default; when no pair matches it is the default if one is given, else a fresh nil
+    (in both of these cases the nil cell made by `assoc` stays allocated). -/
+theorem alistGet_spec {h : Heap} {r : Nat} {xs : List Nat} {tl : Nat} (l : ListAt h r xs tl)
+    (hl : IsListObj (h.get r)) (key : Nat) (dflt : Option Nat) :
+    (∀ p a d, xs.find? (assocPred h key) = some p → h.get p = .cons a d →
+      h.alistGet key r dflt = .ok (d, h)) ∧
+    (xs.find? (assocPred h key) = none →
+      h.alistGet key r dflt =
+        (match dflt with
+         | some d => .ok (d, (h.alloc .nil).2)
+         | none => .ok (h.cells.size + 1, ((h.alloc .nil).2.alloc .nil).2))) :=
+  ⟨fun _ _ _ hf hg => alistGet_found l hl key dflt hf hg, fun hf => by
+    rw [alistGet_missing l hl key dflt hf]; cases dflt <;> simp [Heap.alloc]⟩
+
+/-- the first pair whose key is `equal` decides -/
+theorem alistGet_first {h : Heap} {r : Nat} {pre post : List Nat} {p a d tl : Nat}
+    (l : ListAt h r (pre ++ p :: post) tl) (key : Nat) (dflt : Option Nat)
+    (hpre : ∀ q ∈ pre, assocPred h key q = false)
+    (hg : h.get p = .cons a d) (he : h.equal (h.cells.size + 2) a key = true) :
+    h.alistGet key r dflt = .ok (d, h) := by
+  have hl : IsListObj (h.get r) := by
+    cases pre <;> cases l with
+    | step hg _ => exact .inr ⟨_, _, hg⟩
+  have hp : assocPred h key p = true := assocPred_iff.mpr ⟨a, d, hg, he⟩
+  have : (pre ++ p :: post).find? (assocPred h key) = some p := by
+    rw [List.find?_eq_some_iff_append]
+    exact ⟨hp, pre, post, rfl, fun a ha => by simp [hpre a ha]⟩
+  exact alistGet_found l hl key dflt this hg
+
+/-- **a key that is PRESENT with a NIL value yields that nil value, NOT the default.**
+    (The defect once seeded into the code — "treat a nil value like a missing key and return the
+    default" — contradicts this theorem: here the answer is the stored cell `d`, a nil, on the unchanged
+    heap, and it is not the default object `x` unless they are the same cell.) -/
+theorem alistGet_present_nil_value {h : Heap} {r : Nat} {pre post : List Nat} {p a d tl : Nat}
+    (l : ListAt h r (pre ++ p :: post) tl) (key x : Nat)
+    (hpre : ∀ q ∈ pre, assocPred h key q = false)
+    (hg : h.get p = .cons a d) (he : h.equal (h.cells.size + 2) a key = true)
+    (hd : h.get d = .nil) :
+    h.alistGet key r (some x) = .ok (d, h) ∧ h.get d = .nil ∧
+    (x ≠ d → ∀ h', h.alistGet key r (some x) ≠ .ok (x, h')) := by
+  have e := alistGet_first l key (some x) hpre hg he
+  refine ⟨e, hd, fun hne h' he' => ?_⟩
+  rw [e] at he'
+  injection he' with he'
+  exact hne (congrArg Prod.fst he').symm
+
+/-- absent key: the default when given, else a nil -/
+theorem alistGet_absent {h : Heap} {r : Nat} {xs : List Nat} {tl : Nat} (l : ListAt h r xs tl)
+    (hl : IsListObj (h.get r)) (key : Nat) (hno : ∀ q ∈ xs, assocPred h key q = false) :
+    (∀ x, ∃ h', h.alistGet key r (some x) = .ok (x, h') ∧ Ext h h') ∧
+    (∃ n h', h.alistGet key r none = .ok (n, h') ∧ h'.get n = .nil ∧ Ext h h' ∧ h.cells.size ≤ n) := by
+  have hf : xs.find? (assocPred h key) = none := List.find?_eq_none.mpr (fun q hq => by simp [hno q hq])
+  refine ⟨fun x => ⟨_, by rw [alistGet_missing l hl key _ hf], ext_alloc h _⟩, ?_⟩
+  refine ⟨h.cells.size + 1, ((h.alloc .nil).2.alloc .nil).2, ?_, ?_,
+    (ext_alloc h _).trans (ext_alloc _ _), by omega⟩
+  · rw [alistGet_missing l hl key _ hf]; simp [Heap.alloc]
+  · have := alloc_get_new (h.alloc .nil).2 .nil
+    rwa [alloc_size] at this
+
+/-- a non-list alist argument is rejected -/
+theorem alistGet_not_list {h : Heap} {r : Nat} (hn : NotCons (h.get r)) (hnn : h.get r ≠ .nil)
+    (key : Nat) (dflt : Option Nat) : h.alistGet key r dflt = .error .typeMismatch := by
+  unfold Heap.alistGet; rw [assoc_of_atom hn hnn key]
+
+/-! ### `alist_from` / `plist_from` -/
+
+/-- **alist_from**: on EVERY heap the call succeeds; the result (the cell `h.cells.size`) denotes a proper
+    list `ps` of NEW, pairwise different cells, one per input pair, in input order, the i-th holding
+    `(kᵢ . vᵢ)`; no cell of `h` is modified (frame); a well-formed heap with valid handles stays well-formed. -/
+theorem alistFrom_spec (h : Heap) (kvs : List (Nat × Nat)) :
+    ∃ (h' : Heap) (ps : List Nat),
+      h.alistFrom kvs = .ok (h.cells.size, h') ∧ Abs h' h.cells.size ps ∧
+      ps.map h'.get = kvs.map (fun kv => Obj.cons kv.1 kv.2) ∧
+      (∀ p ∈ ps, h.cells.size < p ∧ p < h'.cells.size) ∧ ps.Pairwise (· < ·) ∧
+      Ext h h' ∧
+      (WF h → (∀ kv ∈ kvs, kv.1 < h.cells.size ∧ kv.2 < h.cells.size) → WF h') := by
+  obtain ⟨h', ps, tl', ef, b, hm, hq, hp, _, _, hwf⟩ := alist_fold kvs (BuildInv.init h)
+  refine ⟨h', ps, ?_, ⟨tl', by simpa using b.list, b.nil⟩, hm, ?_, hp, b.ext, ?_⟩
+  · rw [alistFrom_eq, ef]
+  · intro p hp'
+    have := hq p hp'
+    rw [alloc_size] at this; omega
+  · intro w hkv
+    apply hwf (wf_alloc w (fun a d e => by cases e))
+    intro kv hkv'
+    have := hkv kv hkv'
+    rw [alloc_size]; omega
+
+/-- index form: as many pairs as inputs, the i-th pair cell holds `(kᵢ . vᵢ)` -/
+theorem alistFrom_get {h' : Heap} {ps : List Nat} {kvs : List (Nat × Nat)}
+    (hm : ps.map h'.get = kvs.map (fun kv => Obj.cons kv.1 kv.2)) :
+    ps.length = kvs.length ∧
+    ∀ (i : Nat) (hi : i < ps.length) (hk : i < kvs.length), h'.get ps[i] = .cons kvs[i].1 kvs[i].2 := by
+  have hlen : ps.length = kvs.length := by simpa using congrArg List.length hm
+  refine ⟨hlen, fun i hi hk => ?_⟩
+  have := congrArg (fun l => l[i]?) hm
+  simpa [hi, hk] using this
+
+/-- **plist_from**: on EVERY heap the call succeeds; the result denotes the alternating list
+    `[k₁, v₁, k₂, v₂, …]` (the handles themselves, not copies); exactly `1 + 2·n` cells are added, no cell of
+    `h` is modified (frame); a well-formed heap with valid handles stays well-formed. -/
+theorem plistFrom_spec (h : Heap) (kvs : List (Nat × Nat)) :
+    ∃ h' : Heap,
+      h.plistFrom kvs = .ok (h.cells.size, h') ∧
+      Abs h' h.cells.size (kvs.flatMap (fun kv => [kv.1, kv.2])) ∧
+      h'.cells.size = h.cells.size + 1 + 2 * kvs.length ∧
+      Ext h h' ∧
+      (WF h → (∀ kv ∈ kvs, kv.1 < h.cells.size ∧ kv.2 < h.cells.size) → WF h') := by
+  obtain ⟨h', tl', ef, b, hsz, _, hwf⟩ := plist_fold kvs (BuildInv.init h)
+  refine ⟨h', ?_, ⟨tl', by simpa using b.list, b.nil⟩, by rw [hsz, alloc_size], b.ext, ?_⟩
+  · rw [plistFrom_eq, ef]
+  · intro w hkv
+    apply hwf (wf_alloc w (fun a d e => by cases e))
+    intro kv hkv'
+    have := hkv kv hkv'
+    rw [alloc_size]; omega
+
+/-! ### non-vacuity: the alist `((a . 1) (b) 5 (b . 7))` -/
+
+/-- keys are ints (`a` = 100, `b` = 200).  cells: 0 ↦ a, 1 ↦ 1, 2 ↦ (a . 1); 3 ↦ b, 4 ↦ nil, 5 ↦ (b) = (b . nil);
+    6 ↦ 5; 7 ↦ 7, 8 ↦ (b . 7); 9 ↦ nil; spine 13 → 12 → 11 → 10 → nil@9 with cars 2, 5, 6, 8;
+    14 ↦ b (another object `equal` to the key of cell 3, not the same cell), 15 ↦ 300 (an absent key),
+    16 ↦ 0 (a default), 17 ↦ (a . 1) as a DOTTED pair handle (tail the int 1). -/
+def exAlist : Heap :=
+  { cells := #[.int 100, .int 1, .cons 0 1, .int 200, .nil, .cons 3 4, .int 5, .int 7, .cons 3 7, .nil,
+               .cons 8 9, .cons 6 10, .cons 5 11, .cons 2 12, .int 200, .int 300, .int 0, .cons 0 1] }
+
+theorem exAlist_wf : WF exAlist := wf_of_wfb (by decide)
+theorem exAlist_list : ListAt exAlist 13 [2, 5, 6, 8] 9 := toList_sound 18 13 _ _ (by decide) (by decide)
+theorem exAlist_abs : Abs exAlist 13 [2, 5, 6, 8] := ⟨9, exAlist_list, by decide⟩
+theorem exAlist_isList : IsListObj (exAlist.get 13) := .inr ⟨2, 12, by decide⟩
+theorem exAlist_dotted : ListAt exAlist 17 [0] 1 := toList_sound 18 17 _ _ (by decide) (by decide)
+
+/-- the hypotheses of `alistGet_present_nil_value` hold for the key `b` (cell 14): the first pair `(a . 1)`
+    does not match, the second `(b)` does, its value cell 4 is nil … -/
+example : ListAt exAlist 13 ([2] ++ 5 :: [6, 8]) 9 ∧ (∀ q ∈ [2], assocPred exAlist 14 q = false) ∧
+    exAlist.get 5 = .cons 3 4 ∧ exAlist.equal (exAlist.cells.size + 2) 3 14 = true ∧
+    exAlist.get 4 = .nil ∧ (16 : Nat) ≠ 4 :=
+  ⟨exAlist_list, by decide, by decide, by decide, by decide, by decide⟩
+
+/-- … so `alist_get b alist 0` is the stored nil (cell 4), not the default (cell 16), although the later
+    pair `(b . 7)` and the default are both non-nil -/
+example : exAlist.alistGet 14 13 (some 16) = .ok (4, exAlist) :=
+  (alistGet_present_nil_value (pre := [2]) (post := [6, 8]) exAlist_list 14 16
+    (by decide) (by decide : exAlist.get 5 = .cons 3 4) (by decide) (by decide)).1
+
+/-- the same by evaluation (projecting the heap to its size: `Heap` has no decidable equality) -/
+example :
+    (match exAlist.alistGet 14 13 (some 16) with
+     | .ok (x, h') => some (x, exAlist.get x, h'.cells.size) | .error _ => none) = some (4, .nil, 18) ∧
+    (match exAlist.alistGet 0 13 (some 16) with
+     | .ok (x, h') => some (x, exAlist.get x, h'.cells.size) | .error _ => none) = some (1, .int 1, 18) ∧
+    -- an absent key: the default; without default: a fresh nil (cell 19, after the nil cell 18 of `assoc`)
+    (match exAlist.alistGet 15 13 (some 16) with
+     | .ok (x, h') => some (x, h'.cells.size) | .error _ => none) = some (16, 19) ∧
+    (match exAlist.alistGet 15 13 none with
+     | .ok (x, h') => some (x, h'.get x, h'.cells.size) | .error _ => none) = some (19, .nil, 20) ∧
+    -- an int as the alist: an error
+    (match exAlist.alistGet 14 6 none with | .ok _ => none | .error e => some e) = some .typeMismatch := by
+  decide
+
+/-- `assoc`: the first matching pair; the element `5` (not a pair) is skipped; the pair list is `[2, 5, 8]` -/
+example :
+    (match exAlist.assoc 14 13 with | .ok (x, _) => some x | .error _ => none) = some 5 ∧
+    (match exAlist.assoc 15 13 with | .ok (x, h') => some (x, h'.get x) | .error _ => none) = some (18, .nil) ∧
+    [2, 5, 6, 8].find? (assocPred exAlist 14) = some 5 ∧
+    [2, 5, 6, 8].filter (fun x => exAlist.isCons x) = [2, 5, 8] ∧
+    exAlist.assoc 14 6 = .error .typeMismatch := by
+  refine ⟨by decide, by decide, by decide, by decide, ?_⟩
+  exact assoc_not_list (notCons_of_isCons (by decide)) (by decide) 14
+
+/-- (only for `decide` in the examples below) -/
+local instance : DecidableEq (Except AErr Nat)
+  | .ok a, .ok b => if h : a = b then isTrue (h ▸ rfl) else isFalse (fun e => h (Except.ok.inj e))
+  | .error a, .error b => if h : a = b then isTrue (h ▸ rfl) else isFalse (fun e => h (Except.error.inj e))
+  | .ok _, .error _ => isFalse nofun
+  | .error _, .ok _ => isFalse nofun
+
+/-- `length`, `nthcdr`, `nth`, `last` on the same list (and on the dotted pair 17 = `(a . 1)`) -/
+example :
+    exAlist.length 13 = 4 ∧ exAlist.length 17 = 1 ∧
+    exAlist.nthcdr 0 13 = .ok 13 ∧ exAlist.nthcdr 2 13 = .ok 11 ∧ exAlist.nthcdr 4 13 = .ok 9 ∧
+    exAlist.nthcdr 9 13 = .ok 9 ∧ exAlist.nthcdr 1 17 = .ok 1 ∧
+    exAlist.nthcdr 2 17 = .error .typeMismatch ∧
+    exAlist.last 13 none = .ok 10 ∧ exAlist.last 13 (some 2) = .ok 11 ∧ exAlist.last 13 (some 0) = .ok 9 ∧
+    exAlist.last 13 (some 4) = .ok 13 ∧ exAlist.last 13 (some 9) = .ok 13 ∧
+    exAlist.last 13 (some (-1)) = .error .outOfRange ∧ exAlist.last 9 none = .ok 9 ∧
+    exAlist.last 6 none = .error .typeMismatch := by
+  decide
+
+example :
+    (match exAlist.nth 2 13 with | .ok (x, h') => some (x, h'.cells.size) | .error _ => none) = some (6, 18) ∧
+    (match exAlist.nth (-3) 13 with | .ok (x, h') => some (x, h'.cells.size) | .error _ => none) = some (2, 18) ∧
+    (match exAlist.nth 4 13 with | .ok (x, h') => some (x, h'.get x, h'.cells.size) | .error _ => none)
+      = some (18, .nil, 19) ∧
+    (match exAlist.nth 1 17 with | .ok _ => none | .error e => some e) = some .typeMismatch := by
+  decide
+
+/-- the same from the theorems -/
+example : exAlist.nth 2 13 = .ok (6, exAlist) ∧ exAlist.length 13 = 4 ∧
+    (∃ r', exAlist.last 13 none = .ok r' ∧ ListAt exAlist r' [8] 9) ∧
+    (∃ r', exAlist.nthcdr 3 13 = .ok r' ∧ Abs exAlist r' [8]) :=
+  ⟨nth_nat exAlist_list 2 (by decide), length_spec exAlist_list,
+   (last_spec exAlist_list (by decide)).1, nthcdr_abs exAlist_abs 3⟩
+
+/-- `alist_from` / `plist_from` of the pairs (a . 1), (b . 7) (handles 0, 1, 3, 7, all valid in the
+    well-formed `exAlist`): evaluated, and then looked up with `alist_get` -/
+example : WF exAlist ∧ ∀ kv ∈ [((0 : Nat), (1 : Nat)), (3, 7)], kv.1 < exAlist.cells.size ∧ kv.2 < exAlist.cells.size :=
+  ⟨exAlist_wf, by decide⟩
+
+example :
+    (match exAlist.alistFrom [(0, 1), (3, 7)] with
+     | .ok (r, h') => some (r, h'.elems r, (h'.elems r).map h'.get, h'.cells.size)
+     | .error _ => none) = some (18, [19, 21], [.cons 0 1, .cons 3 7], 23) ∧
+    (match exAlist.plistFrom [(0, 1), (3, 7)] with
+     | .ok (r, h') => some (r, h'.elems r, h'.cells.size)
+     | .error _ => none) = some (18, [0, 1, 3, 7], 23) ∧
+    (match exAlist.alistFrom [(0, 1), (3, 7)] with
+     | .ok (r, h') => (match h'.alistGet 14 r none with | .ok (x, _) => some x | .error _ => none)
+     | .error _ => none) = some 7 := by
+  decide
 
 end Tulisp.C20
